@@ -514,7 +514,9 @@ StructIncFiles == << [name |-> "i1", body |-> << [k |-> "once"], LabX("x"), W(<<
 ListAlphabet ==        \* C19: ordinary symbols of any value (negative, > 16 bit, > 18 bit, equal values), dotted names, labels, exports, includes
   { Lab("a"), Lab("b"), LabX("c"), Lab("1"), Const("n", Num(-5)), Const("big", Num(70000)), Const("z", Num(0)), ConstX("m", Bin("-", B, A)),
     Const("n2", Num(-9)), Const("page", Num(262144)), Const("top", Num(65535)), Lab("buf.s"), Lab("buf.e"), Const("buf.len", Bin("-", Sym("buf.e"), Sym("buf.s"))),
-    Const("a", Num(3)), Const("b", Num(512)), I0("nop"), W(<<A, B>>), Blkb(Num(3)), By(<<Num(1)>>), Inc(1), Inc(2), [k |-> "externall"] }
+    Const("a", Num(3)), Const("b", Num(512)), I0("nop"), W(<<A, B>>), Blkb(Num(3)), By(<<Num(1)>>), Inc(1), Inc(2), [k |-> "externall"],
+    \* equal values whose names order differently as written and with the letter case folded
+    Const("Zed", Num(3)), Const("IOB", Num(512)), Const("IO_BASE", Num(512)) }
 ListIncFiles == << [name |-> "i1", body |-> << Lab("x"), I0("nop"), Lab("a"), Const("n", Num(9)) >>],
                    [name |-> "i2", body |-> << Const("q", Num(-70000)), LabX("y"), By(<<Num(2)>>) >>] >>
 
@@ -625,7 +627,8 @@ LinkIsConcatenation(r) ==
 
 (* C19: the listing shows, under each source file's name, every ordinary symbol of that file with its final value, ordered by
    value and then by name *)
-NameRank(n) == CASE n = "a" -> 1 [] n = "b" -> 2 [] n = "big" -> 3 [] n = "buf.e" -> 4 [] n = "buf.len" -> 5 [] n = "buf.s" -> 6 [] n = "c" -> 7
+(* names compare as the strings they are listed as (upper-case letters before '_' before lower-case letters) *)
+NameRank(n) == CASE n = "IOB" -> -3 [] n = "IO_BASE" -> -2 [] n = "Zed" -> -1 [] n = "a" -> 1 [] n = "b" -> 2 [] n = "big" -> 3 [] n = "buf.e" -> 4 [] n = "buf.len" -> 5 [] n = "buf.s" -> 6 [] n = "c" -> 7
                  [] n = "m" -> 8 [] n = "n" -> 9 [] n = "n2" -> 10 [] n = "page" -> 11 [] n = "q" -> 12 [] n = "top" -> 13
                  [] n = "x" -> 14 [] n = "y" -> 15 [] n = "z" -> 16 [] OTHER -> 17
 Before(p, q) == p.value < q.value \/ (p.value = q.value /\ NameRank(p.name) <= NameRank(q.name))
